@@ -37,6 +37,7 @@ mod suite_scaling;
 mod suite_listing;
 mod suite_print;
 mod earley;
+mod replay;
 
 use std::env;
 
@@ -44,8 +45,24 @@ fn main() {
     colored::control::set_override(false);
     std::panic::set_hook(Box::new(|_| {}));
     let args: Vec<String> = env::args().collect();
+    if args.len() >= 2 && args[1] == "replayops" {
+        if args.len() != 4 {
+            eprintln!("usage: harness replayops <opsfile> <outfile>");
+            std::process::exit(2);
+        }
+        let (ops, outfile) = (args[2].clone(), args[3].clone());
+        let child = std::thread::Builder::new()
+            .stack_size(64 << 20)
+            .spawn(move || replay::run(&ops, &outfile))
+            .unwrap();
+        if let Err(e) = child.join().unwrap() {
+            eprintln!("replayops: {e}");
+            std::process::exit(1);
+        }
+        return;
+    }
     if args.len() < 5 {
-        eprintln!("usage: harness <suite> <tier> <seed> <outdir>");
+        eprintln!("usage: harness <suite> <tier> <seed> <outdir>\n       harness replayops <opsfile> <outfile>");
         std::process::exit(2);
     }
     let (suite, tier, seed, dir) = (args[1].clone(), args[2].clone(), args[3].parse::<u64>().unwrap_or(0), args[4].clone());
